@@ -847,6 +847,7 @@ func c10drive(c *drv.Ctx, sp *c10spec, cases []*c10case) {
 	heavy := make(chan struct{}, 3) // 1 MB and endless bodies in flight per shard
 	var mu sync.Mutex
 	var wg sync.WaitGroup
+	hangs := 0
 	ch := make(chan *c10case)
 	for w := 0; w < c10Workers; w++ {
 		wg.Add(1)
@@ -859,7 +860,10 @@ func c10drive(c *drv.Ctx, sp *c10spec, cases []*c10case) {
 				}
 				o := c10run(k, sp, false)
 				rerun := false
-				if o.infra == "" && o.Fail != "" {
+				mu.Lock()
+				systematic := hangs >= 3 // hangs are established as systematic: no more 10 s confirmation runs
+				mu.Unlock()
+				if o.infra == "" && o.Fail != "" && !(systematic && strings.Contains(o.Fail, ":hang:")) {
 					first := o
 					rerun = true
 					timeClass := strings.Contains(first.Fail, ":hang:") || strings.Contains(first.Fail, ":slow:")
@@ -902,6 +906,9 @@ func c10drive(c *drv.Ctx, sp *c10spec, cases []*c10case) {
 					}
 					if o.Fail != "" {
 						c.Fail(o.Fail, o.FailDesc, map[string]any{"part": c.Part, "case": k, "observed": o})
+						if strings.Contains(o.Fail, ":hang:") {
+							hangs++
+						}
 					}
 					if k.Idx%97 == int(c.Seed%97) || len(c.R.Samples) == 0 {
 						c.Sample(o)
@@ -913,6 +920,15 @@ func c10drive(c *drv.Ctx, sp *c10spec, cases []*c10case) {
 	}
 	for _, k := range cases {
 		if c.Expired() {
+			break
+		}
+		mu.Lock()
+		stop := hangs >= 8
+		mu.Unlock()
+		if stop {
+			// every further hanging script costs 10 s; the finding is made, the rest of the space is given up
+			c.R.Exhaustive = false
+			c.Note("stopped early after 8 hanging scripts in this shard")
 			break
 		}
 		ch <- k
